@@ -32,16 +32,20 @@ pub fn lib_text(rng: &mut Rng) -> String {
                         }
                         if rng.chance(1, 4) {
                             s.push_str(&format!("\"p{}.v\"", rng.below(100)));
+                        } else if i + 1 == k && rng.chance(1, 4) {
+                            // the implementation's file_path_spec ends only at `,` `;` or a blank: a newline / tab
+                            // glued to the last path becomes part of the path token (still one leaf, still accepted)
+                            s.push_str(&format!("dir{}/f{}.v{}", rng.below(10), rng.below(100), *rng.pick(&["\n", "\t", "\r\n", "\n\n"])));
                         } else {
                             s.push_str(&format!("dir{}/f{}.v ", rng.below(10), rng.below(100)));
                         }
                     }
-                    if rng.chance(1, 3) {
+                    if rng.chance(1, 3) && s.ends_with(' ') {
                         s.push_str(&format!(" -incdir inc{} ", rng.below(10)));
                     }
                     s.push_str(";");
                 }
-                1 => s.push_str(&format!("include m{}.map ;", rng.below(100))),
+                1 => s.push_str(&format!("include m{}.map{};", rng.below(100), *rng.pick(&[" ", " ", "\n", "\t"]))),
                 2 => s.push_str(&format!(
                     "config c{};\n design {}.top ;\n default liblist {} ;\nendconfig",
                     rng.below(100),
@@ -61,6 +65,22 @@ const LAYOUT_DIRS: Layout = Layout { directives: true, defines: true, non_ascii:
 
 /// A source text for the tree-side properties (mostly accepted ones).
 pub fn tree_input(env: &Env, rng: &mut Rng) -> SvInput {
+    let mut i = tree_input_inner(env, rng);
+    // A.1.2 source_text ::= [ timeunits_declaration ] { description }: the optional header of a compilation unit
+    if i.gram == Gram::Sv && rng.chance(1, 10) {
+        let t = *rng.pick(&[
+            "timeunit 1ns;\n",
+            "timeprecision 1ps;\n",
+            "timeunit 1ns; timeprecision 10ps;\n",
+            "timeunit 100ps / 10fs;\n",
+            "// header\ntimeprecision 1fs;\ntimeunit 1ps;\n",
+        ]);
+        i.text = format!("{}{}", t, i.text);
+    }
+    i
+}
+
+fn tree_input_inner(env: &Env, rng: &mut Rng) -> SvInput {
     let k = rng.below(100);
     if k < 8 {
         return SvInput { text: lib_text(rng), kind: "lib", gram: Gram::Lib };
